@@ -319,6 +319,12 @@ func (ex *Exec) load(st *State, a *Addr) Val {
 		ex.vc.Trust("fields of opaque library types are not tracked (reads yield unconstrained values)")
 		t := a.typeAtOpaque()
 		v := ex.freshVal(t, "opq")
+		if ex.nonNilOpaqueField(a) {
+			if l, ok := v.(Sc); ok && l.S == SRef {
+				ex.vc.Assume(not(eq(l.T, z64())))
+				ex.vc.Trust("net/http guarantees non-nil Request.Body, Request.URL and Response.Body")
+			}
+		}
 		return v
 	}
 	switch a.Kind {
@@ -438,4 +444,21 @@ func (ex *Exec) havocAllHeap(st *State, why string) {
 	// globals too
 	st.globs = map[*ssa.Global]Val{}
 	_ = why
+}
+
+var nonNilOpaque = map[string]bool{
+	"net/http.Response.Body": true, "net/http.Request.Body": true, "net/http.Request.URL": true, "net/http.Request.Header": true,
+}
+
+// nonNilOpaqueField: the address is a documented never-nil field of an opaque
+// library struct.
+func (ex *Exec) nonNilOpaqueField(a *Addr) bool {
+	if a.Kind != AHeap || len(a.Path) != 1 || a.Path[0].IsIdx {
+		return false
+	}
+	st, ok := a.Root.Underlying().(*types.Struct)
+	if !ok {
+		return false
+	}
+	return nonNilOpaque[namedString(a.Root)+"."+st.Field(a.Path[0].Field).Name()]
 }
